@@ -1078,8 +1078,12 @@ class Exec:
                 v = Tup([])                                                  # an empty list that will hold strings / arrays
             if hint == "list_members" and isinstance(v, Seq) and v.kind == "list" and lit(v.n) == 0:
                 v = MemList(z3.K(I, z3.BoolVal(False)))                      # an empty list used as a set: append / membership only
+                self.trusted_used.add(f"{self.qualname}: the list `{tgt.id}` is abstracted to the SET of its elements (contract type list_members): exact as long as "
+                                      "the function only appends to it and tests membership; any other operation on it leaves the unit unbound")
             if hint == "list_counted" and isinstance(v, (Tup, Seq)):
                 v = CList(iv(len(v.items)) if isinstance(v, Tup) else v.n)    # a list of strings / arrays: only its length is tracked
+                self.trusted_used.add(f"{self.qualname}: the list `{tgt.id}` is a length-only list (contract type list_counted): its elements are not tracked, "
+                                      "values read from it are arbitrary; subscripts and appends are modelled with their exceptions")
             if hint == "list_pair" and isinstance(v, Seq) and v.kind == "list" and lit(v.n) == 0:
                 v = PairSeq(const_list([]), const_list([]))                  # an empty list that will hold 2-tuples of ints
             st.env[tgt.id] = v
